@@ -10,7 +10,7 @@ import ast
 from .. import AnalysisError, AnchorMissing
 from ..cfg import cfg_of
 from ..model import own_nodes
-from ..values import term_kwargs, pattern, match, match_any, find, contains, show, subterms
+from ..values import term_kwargs, pattern, match, match_any, find, contains, show, subterms, alias
 from ..domains import polarity, POS, NEG, ZERO
 from .base import obligation, src, callee_name, if_branches, split_if
 from .C04 import pattern_term, returns, enclosing_loop, _inside
@@ -498,3 +498,214 @@ obligation('C07-k', 'T7 T8', 'mixture density = sum of w_k N(x; m_k, cov) with t
            necessary='a variance used as a standard deviation changes the denominator of every '
                      'importance weight; in-place normalisation rewrites the weights of stored '
                      'populations')(_C13.c13_b)
+
+
+@obligation('C07-l', 'T1 T5 T7', 'SMC round state machine: every batch goes to the inner sampler; a '
+            'finished round is recorded, counted and followed by the next one until the last '
+            'round index; the round count and threshold list account for earlier populations',
+            floor=14,
+            necessary='a batch that is not merged, a round that is skipped or repeated, or a '
+                      'threshold list shifted against the round index gives populations that do '
+                      'not belong to the requested schedule')
+def c07_l(ctx):
+    from .. import symdiff as sd
+    from ..ratfun import Rat, Unsupported
+    smc = ctx.cls(SMC)
+    up = ctx.own_method(smc, 'update')
+    ex = ctx.ex(up)
+    g = cfg_of(up)
+    ROUND = "self.state['round']"
+    # every batch: framework bookkeeping, then the inner sampler, with (batch, batch_index)
+    sup = [c for c in ctx.calls(up) if isinstance(c.func, ast.Attribute) and
+           c.func.attr == 'update' and isinstance(c.func.value, ast.Call) and
+           callee_name(c.func.value) == 'super']
+    inner = ctx.calls(up, 'self._rejection.update(*_)')
+    for (cs, label) in ((sup, 'framework update'), (inner, 'inner sampler update')):
+        ok = len(cs) == 1 and [ex.term(a) for a in cs[0].args] == [('param', up.params[1]),
+                                                                     ('param', up.params[2])] \
+            and g.must_pass([ctx.node(up, _st(cs[0]))])
+        ctx.check(ok, up, label + ' receives (batch, batch_index) on every path',
+                  'update(batch, batch_index)',
+                  'the {} is not called with (batch, batch_index) for every batch'.format(label),
+                  fn=up, node=cs[0] if cs else up.node)
+    # round transition
+    app = [c for c in ctx.calls(up, 'self._populations.append(_)')]
+    inc = [s for (s, t, k) in ctx.stores(up, ROUND)]
+    nxt = ctx.calls(up, 'self._init_new_round()')
+    can = ctx.calls(up, 'self.batches.cancel_pending()')
+    fin = pattern('self._rejection.finished')
+    more = pattern("{} < self.objective['round']".format(ROUND))
+
+    def under(node, pats):
+        facts = [t for (t, pol, _) in ctx.guards(up, node) if pol and t[0] != 'bool']
+        return all(any(match(t, p) is not None for t in facts) for p in pats)
+    ok = len(app) == 1 and match(ex.term(app[0].args[0]),
+                                 pattern('self._extract_population()')) is not None and \
+        under(_st(app[0]), [fin, more])
+    ctx.check(ok, up, 'finished round recorded (when another round follows)',
+              'if rejection.finished and round < objective[round]: populations.append(extract)',
+              'the population of a finished round is not appended exactly when the round is '
+              'finished and is not the last one', fn=up, node=app[0] if app else up.node)
+    ok = len(inc) == 1 and isinstance(inc[0], ast.AugAssign) and isinstance(inc[0].op, ast.Add) \
+        and ex.raw(inc[0].value) == ('const', 1) and under(inc[0], [fin, more]) and \
+        bool(app) and ctx.must_precede(up, [_st(app[0])], inc[0])
+    ctx.check(ok, up, 'round index advances by one after the population is recorded',
+              "state['round'] += 1", 'the round index is not advanced by exactly one after the '
+              'finished population was recorded', fn=up, node=inc[0] if inc else up.node)
+    ok = len(nxt) == 1 and under(_st(nxt[0]), [fin, more]) and bool(inc) and \
+        ctx.must_precede(up, [inc[0]], _st(nxt[0]))
+    ctx.check(ok, up, 'next round initialised after the index advanced', '_init_new_round()',
+              'the next round is not initialised after the round index was advanced', fn=up,
+              node=nxt[0] if nxt else up.node)
+    ok = len(can) == 1 and under(_st(can[0]), [fin]) and \
+        not any(match(t, more) is not None for (t, pol, _) in ctx.guards(up, _st(can[0])))
+    ctx.check(ok, up, 'outstanding batches cancelled whenever a round finishes',
+              'if rejection.finished: cancel_pending()', 'pending batches are not cancelled for '
+              'every finished round (including the last)', fn=up, node=can[0] if can else up.node)
+    uo = [c for c in ctx.calls(up) if callee_name(c) == alias('_update_objective')]
+    ok = len(uo) == 1 and g.must_pass([ctx.node(up, _st(uo[0]))])
+    ctx.check(ok, up, 'total batch objective refreshed after every batch', '_update_objective()',
+              'the total n_batches objective is not refreshed on every path', fn=up,
+              node=uo[0] if uo else up.node)
+    # set_objective: last round index and threshold list
+    so = ctx.own_method(smc, 'set_objective')
+    exs = ctx.ex(so)
+    st_round = [s for (s, t, k) in ctx.stores(so, ROUND) if k == 'assign']
+    ok = len(st_round) == 1 and match(exs.term(st_round[0].value),
+                                      pattern('len(self._populations)')) is not None
+    ctx.check(ok, so, 'a continued run starts at the number of recorded populations',
+              "state['round'] = len(self._populations)", '', fn=so,
+              node=st_round[0] if st_round else so.node)
+    upd = [c for c in ctx.calls(so, 'self.objective.update(_)')]
+    okr = False
+    okt = False
+    if upd:
+        d = exs.term(upd[0].args[0])
+        kv = {}
+        if d[0] == 'dict':
+            kv = dict((k[1], v) for (k, v) in d[1] if k[0] == 'const')
+        r = kv.get('round')
+        alg = sd.Algebra()
+
+        def leaf(t):
+            if match(t, pattern('len(self._populations)')) is not None or \
+                    t == pattern_term(ROUND):
+                return Rat.sym('P')
+            if t[0] == 'call' and t[1] in (('global', 'builtins.len'), ('name', 'len'),
+                                            ('global', 'len')) and \
+                    t[2] and t[2][0] in (('param', 'thresholds'), ('param', 'quantiles')):
+                return Rat.sym('L')
+            return None
+        if r is not None:
+            alts = _phi_variants(r)
+            try:
+                okr = all(alg.same(sd.convert(a, alg, leaf),
+                                   Rat.sym('L') - Rat.const(1) + Rat.sym('P')) for a in alts)
+            except Unsupported:
+                okr = False
+        th = kv.get('thresholds')
+        if th is not None:
+            alts = th[1] if th[0] == 'phi' else (th,)
+            okt = any(match_any(a, (
+                'np.concatenate((np.full(len(self._populations), None), thresholds))',
+                "np.concatenate((np.full(self.state['round'], None), thresholds))"))
+                is not None for a in alts) and \
+                any(match(a, pattern('np.full(_n, None)')) is not None for a in alts)
+    ctx.check(okr, so, 'last round index = earlier populations + length of the schedule - 1',
+              "round = len(schedule) - 1 + len(self._populations)",
+              'the last round index is not len(thresholds or quantiles) - 1 plus the number of '
+              'recorded populations', fn=so, node=upd[0] if upd else so.node)
+    ctx.check(okt, so, 'threshold list padded by one entry per earlier population',
+              'concatenate((full(n_previous, None), thresholds))',
+              'the threshold list is not aligned with the round index (one None per earlier '
+              'population, then the given thresholds)', fn=so, node=upd[0] if upd else so.node)
+    qs = [s for (s, t, k) in ctx.stores(so, 'self._quantiles') if k == 'assign']
+    okq = any(match_any(exs.term(s.value), (
+        'np.concatenate((np.full(len(self._populations), None), quantiles))',
+        "np.concatenate((np.full(self.state['round'], None), quantiles))")) is not None
+        for s in qs) and bool(st_round) and \
+        all(ctx.must_precede(so, st_round, s) for s in qs)
+    ctx.check(okq, so, 'quantile list padded by one entry per earlier population', '', 'the '
+              'quantile list is not aligned with the round index', fn=so,
+              node=qs[0] if qs else so.node)
+    first = ctx.calls(so, 'self._init_new_round()')
+    ctx.check(len(first) == 1 and bool(upd) and
+              ctx.must_precede(so, [_st(upd[0])], _st(first[0])) and
+              cfg_of(so).must_pass([ctx.node(so, _st(first[0]))]), so,
+              'first round initialised once the objective is set', '_init_new_round()', '',
+              fn=so, node=first[0] if first else so.node)
+    # the inner sampler of a round
+    sr = ctx.own_method(smc, '_set_rejection_round')
+    exr = ctx.ex(sr)
+    rc = [c for c in ctx.calls(sr, 'Rejection(*_)')]
+    okc = False
+    if len(rc) == 1:
+        kw = dict((k.arg, exr.term(k.value)) for k in rc[0].keywords)
+        a0 = exr.term(rc[0].args[0]) if rc[0].args else kw.get('model')
+        sd_ = kw.get('seed')
+        okc = a0 == pattern_term('self.model') and \
+            kw.get('discrepancy_name') == pattern_term('self.discrepancy_name') and \
+            kw.get('output_names') == pattern_term('self.output_names') and \
+            kw.get('batch_size') == pattern_term('self.batch_size') and \
+            kw.get('max_parallel_batches') == pattern_term('self.max_parallel_batches') and \
+            sd_ is not None and sd_[0] in ('phi', 'ifexp')
+    ctx.check(okc, sr, 'inner sampler built on the same model, outputs, batch size and '
+              'parallelism, with the round seed', 'Rejection(self.model, discrepancy_name=.., '
+              'output_names=.., batch_size=.., seed=round seed, max_parallel_batches=..)',
+              'the inner rejection sampler of a round is not configured like the SMC sampler '
+              'itself', fn=sr, node=rc[0] if rc else sr.node)
+    # round 0 uses the master seed, later rounds their sub-seed
+    seeds = [s for s in own_nodes(sr.node) if isinstance(s, ast.Assign) and
+             isinstance(s.value, ast.IfExp)]
+    oks = False
+    for s in seeds:
+        t = exr.raw(s.value.test)
+        b, o = exr.term(s.value.body), exr.term(s.value.orelse)
+        if match(t, pattern('{} == 0'.format(sr.params[1]))) is not None:
+            oks = b == pattern_term('self.seed') and contains(o, 'get_sub_seed(self.seed, _)')
+        elif match(t, pattern('{} != 0'.format(sr.params[1]))) is not None or \
+                match(t, pattern('0 < {}'.format(sr.params[1]))) is not None:
+            oks = o == pattern_term('self.seed') and contains(b, 'get_sub_seed(self.seed, _)')
+    ctx.check(oks, sr, 'round 0 on the master seed, later rounds on their sub-seed',
+              'seed = self.seed if round == 0 else get_sub_seed(self.seed, round)', '', fn=sr,
+              node=seeds[0] if seeds else sr.node)
+    # a population = the inner result with weights, means and covariance attached
+    ep = ctx.own_method(smc, '_extract_population')
+    exe = ctx.ex(ep)
+    rr = returns(ep)
+    src_ = [s for s in own_nodes(ep.node) if isinstance(s, ast.Assign) and
+            match(exe.term(s.value), pattern('self._rejection.extract_result()')) is not None]
+    wst = [s for s in own_nodes(ep.node) if isinstance(s, ast.Assign) and
+           isinstance(s.targets[0], ast.Attribute) and s.targets[0].attr == 'weights']
+    okp = len(rr) == 1 and bool(src_) and bool(wst) and \
+        match(exe.term(rr[0].value), pattern('self._rejection.extract_result()')) is not None and \
+        exe.term(wst[0].targets[0].value) == exe.term(rr[0].value) and \
+        exe.term(wst[0].value)[0] == 'item' and exe.term(wst[0].value)[2] == 1 and \
+        contains(exe.term(wst[0].value), 'self._compute_weights_means_and_cov(_)')
+    ctx.check(okp, ep, 'population = inner result carrying the computed weights',
+              'sample = rejection.extract_result(); sample.weights = w; return sample',
+              'the recorded population is not the inner sampler\'s result with the importance '
+              'weights attached', fn=ep, node=rr[0] if rr else ep.node)
+
+
+def _phi_variants(t, limit=16):
+    """All terms obtained by choosing one alternative for every phi inside t."""
+    if not isinstance(t, tuple) or not t:
+        return [t]
+    if isinstance(t[0], str) and t[0] == 'phi':
+        out = []
+        for a in t[1]:
+            out += _phi_variants(a, limit)
+        return out[:limit]
+    parts = [(_phi_variants(c, limit) if isinstance(c, tuple) else [c]) for c in t]
+    out = [()]
+    for p in parts:
+        out = [o + (x,) for o in out for x in p][:limit]
+    return out
+
+
+def _st(node):
+    n = node
+    while n is not None and not isinstance(n, ast.stmt):
+        n = getattr(n, '_parent', None)
+    return n
